@@ -95,6 +95,8 @@ type sendRec struct {
 }
 
 func checkC05(c *C05Case, rec *evid.Rec) (vs []pbt.Violation) {
+	done := pbt.Watch("C05", "TestC05", c)
+	defer done()
 	inner := memory.NewStorage()
 	type sessObs struct {
 		writes  []netsim.Write
